@@ -126,7 +126,7 @@ func TestC02Manager(t *testing.T) {
 	rec := vt.For("C02")
 	rec.Rule("manager level: PayPerInterval.OnUpdate on a memory/badger store with node.LastSeen = now-elapsed, elapsed in {0,1ns,interval-1,interval,interval+1,multiples,10y,any<=100y}, price 1..2^130, interval 1ns..1h, 0..6 peers (hosts, non-hosts, peers sharing the client's wallet or each other's), optional single injected fault at the k-th balance write; oracle: independent math/big floor(elapsed*price/interval) per peer, client debited the sum, host/zero/empty no movement, under a fault either every delta or none; non-trivial = light client with elapsed>0 and >=1 peer; distinct by (elapsed class, price bits, #peers, links, fault index)")
 	rec.Assume("all-or-nothing is checked for a single fault injected at a balance-store WRITE of one keep-alive (a failing read-back after the movement is not treated as a failed update)")
-	rapid.Check(t, func(rt *rapid.T) {
+	check(t, func(rt *rapid.T) {
 		rapid.SyncTest(rt, func(rt *rapid.T) { mgrCaseRun(rt, rec, false) })
 	})
 }
@@ -136,7 +136,7 @@ func TestC01ManagerFaults(t *testing.T) {
 	defer vt.Watch("TestC01ManagerFaults", 120*time.Second)()
 	rec := vt.For("C01")
 	rec.Rule("fault injection at manager level: one keep-alive (1-6 peers, wallets shared between client and peers, prices to 2^130) with a single injected failure at the k-th balance write, k drawn over every write position, memory/badger; oracle: Stats.TotalCredit is unchanged whether the keep-alive reports success or failure, and a failed keep-alive moved nothing; non-trivial = fault hit with >=2 peers; distinct by (#peers, links, fault index, outcome)")
-	rapid.Check(t, func(rt *rapid.T) {
+	check(t, func(rt *rapid.T) {
 		rapid.SyncTest(rt, func(rt *rapid.T) { mgrCaseRun(rt, rec, true) })
 	})
 }
@@ -320,7 +320,7 @@ func TestC02Slicing(t *testing.T) {
 	defer vt.Watch("TestC02Slicing", 120*time.Second)()
 	rec := vt.For("C02")
 	rec.Rule("slicing (metamorphic, pool level, virtual time): one client with two hosts that keep checking in every 30s; the span T (1s..10min) is cut into k client keep-alives at generated instants (gaps <= 60s); oracle: each host's total credit is in (floor(T*p/I)-k, floor(T*p/I)] and the client is debited exactly the sum; non-trivial = k>=2 and a non-zero total; distinct by (T, cuts, price, interval)")
-	rapid.Check(t, func(rt *rapid.T) {
+	check(t, func(rt *rapid.T) {
 		rapid.SyncTest(rt, func(rt *rapid.T) {
 			cfg := sessCfg{Driver: rapid.SampledFrom([]string{"memory", "badger"}).Draw(rt, "driver")}
 			cfg.Price = genMgrPrice(rt)
@@ -438,7 +438,7 @@ func TestC02Interleaved(t *testing.T) {
 	defer vt.Watch("TestC02Interleaved", 120*time.Second)()
 	rec := vt.For("C02")
 	rec.Rule("interleaving (harness-owned scheduler): keep-alives of two light clients with different elapsed times (and optionally of a host) that bill the same hosts are interleaved at every store call by rapid draws, on memory/badger, prices 1..777777; oracle: all balances afterwards equal those of some one-at-a-time order (exact serial executions on an identical pool), i.e. each client is debited exactly its own elapsed x price per peer; non-trivial = the schedule interleaves two updates; distinct by config + schedule")
-	rapid.Check(t, func(rt *rapid.T) {
+	check(t, func(rt *rapid.T) {
 		rapid.SyncTest(rt, func(rt *rapid.T) {
 			cfg := sessCfg{Driver: rapid.SampledFrom([]string{"memory", "memory", "badger"}).Draw(rt, "driver"), Price: big.NewInt(int64(rapid.SampledFrom([]int{1, 1000, 777777}).Draw(rt, "price"))), Interval: time.Minute, Yield: true}
 			ops := []serOp{{"update", 2, "keepalive(c2)"}, {"update", 3, "keepalive(c3)"}}
